@@ -123,9 +123,7 @@ def clauses(chk, F):
         ok = len(outs) == 1 and outs[0].kind == 'return' and isinstance(outs[0].value, Ag)
         why = ''
         if ok:
-            arr = outs[0].value.fields[model.ai] if len(outs[0].value.fields) > model.ai else None
-            ok = isinstance(arr, Ar) and len(arr.elems) == 16 and all(val_key(e) == val_key(arr.elems[0]) for e in arr.elems) \
-                and tok in opaque_tokens(model.wrap(outs[0].value, 0))
+            ok = model.uniform(outs[0].value) and tok in opaque_tokens(model.wrap(outs[0].value, 0))
             if not ok:
                 why = 'new(timeout) = %r' % (outs[0].value,)
         chk.ob(key, 'timeout stored in every element', 'proved' if ok else 'refuted', subject=fn_subject(F, newk),
